@@ -37,7 +37,8 @@ pub struct FuLi;
 
 impl private::Estimator for FuLi {
     fn estimate_unchecked<S: State>(spectrum: &Spectrum<S>) -> f64 {
-        spectrum.inner().as_slice()[1]
+        // a spectrum with a single class has no singleton class
+        spectrum.inner().as_slice().get(1).copied().unwrap_or(0.0)
     }
 
     fn weight(_: usize, _: usize) -> f64 {
